@@ -14,6 +14,20 @@ Proof. intros H. rewrite (custom_timeout_is_timelimit _ H). reflexivity. Qed.
 Lemma optimal_conclusive s : is_optimal s = true -> conclusive s = true.
 Proof. destruct s; simpl; congruence. Qed.
 
+(* the status a wrapper reports after any history of runs (model changes in between included) is that of
+   its LAST run, on either route: no earlier status survives a re-solve *)
+Theorem sw_status_is_last_run rt st xs x :
+  sw_status (sw_runs rt st (xs ++ [x])) = Some (status_of (outcome_of rt x)).
+Proof. unfold sw_runs. rewrite fold_left_app. reflexivity. Qed.
+
+Corollary sw_alarm_route_timelimit st xs x :
+  run_alarm x = true -> sw_status (sw_runs WithAlarm st (xs ++ [x])) = Some TimeLimit.
+Proof. intros H. rewrite sw_status_is_last_run. unfold outcome_of, status_of. simpl. rewrite H. reflexivity. Qed.
+
+Corollary sw_direct_route_native st xs x :
+  sw_status (sw_runs Direct st (xs ++ [x])) = Some (run_native x).
+Proof. rewrite sw_status_is_last_run. reflexivity. Qed.
+
 (* ------------------------------------------------------------------ k-model machine *)
 Fixpoint last_solve (ops : list kop) : option status :=
   match ops with
